@@ -66,6 +66,7 @@ MUTANTS = [
     {"name": "revert-a63d0d7-strict-recheck-after-lax", "revert": "a63d0d7", "props": ["C01", "C03"]},
     {"name": "revert-55b7cc4-shared-typing-forwardref", "revert": "55b7cc4", "props": ["C17", "C19"]},
     {"name": "revert-6f3d216-not-taken-values", "revert": "6f3d216", "props": ["C06"]},
+    {"name": "revert-6a12ebb-lax-max_digits-carry", "revert": "6a12ebb", "props": ["C03"]},
     # ---- C01 ------------------------------------------------------------------------------
     {"name": "c01-seq-first-element-unconverted", "props": ["C01"], "edits": [{"file": R, "old": """                try:
                     result.append(
